@@ -3,6 +3,7 @@ CONSTANTS MaxLen = 6
  Files = {"f1", "f2"}
  AllowAbsent = TRUE
  MaxRunsGrow = 5
+ Part = 9
  Emit = TRUE
 SPECIFICATION SpecGrow
 INVARIANTS GrowBest EmitCase
